@@ -33,6 +33,14 @@ def _size(st, sink, name, handles):
 def run_program(st, program, sink, with_index, name='out.tdms', after_session=None):
     """Executes the sessions; returns Trace.  `after_session(trace, k)` is called after each session end."""
     tr = Trace()
+    for _ in steps_program(st, program, sink, with_index, tr, name=name, after_session=after_session):
+        pass
+    return tr
+
+
+def steps_program(st, program, sink, with_index, tr, name='out.tdms', after_session=None):
+    """The same as a cooperative task: yields after every write_segment call (the writer is then alive, inside its
+    with-block) and after every session end, so that a scheduler can interleave several writers."""
     nptdms = lib.nptdms
     streams = {}
     iname = name + '_index'
@@ -81,11 +89,12 @@ def run_program(st, program, sink, with_index, name='out.tdms', after_session=No
                     tr.model.accept(call)
                 tr.calls.append(rec)
                 call_no += 1
+                yield ('call', call_no)
         tr.sessions.append((first, call_no))
         snapshot(st, sink, name, streams, tr, with_index)
         if after_session is not None:
             after_session(tr, k)
-    return tr
+        yield ('session', k)
 
 
 def snapshot(st, sink, name, streams, tr, with_index):
